@@ -124,3 +124,21 @@ CLAIMED["C19"] = ("edge-cut pairing of submit and counter-advance events with pr
   "stored counter past every signed one' over all fault-free histories rests on this per-path pairing; wallet crash points and numeric "
   "completeness are not claimed.",
   TRUST, "DESIGN.md §3 C19")
+CLAIMED["C17"] = ("edge-cut must-pass-through over the wallet operations' CFGs with provenance of the bucket arguments (custody typestate: spendable / pending / consumed)",
+  "Decides on every path the custody discipline that conservation of wallet value rests on: Melt records the selected proofs as pending before "
+  "sending them, gives them back only behind the mint's payment-failed error or an UNPAID answer, deletes the pending record only on a final "
+  "answer and touches nothing on PENDING; the quote poll gives back exactly the pending proofs of that quote on UNPAID; Send hands out only "
+  "proofs recorded as pending; swap-to-send deletes inputs only after a successful swap and saves the change; receive/mint/reclaim succeed "
+  "only after saving what they obtained; reclaim removes exactly the UNSPENT-reported proofs from pending after the save; balances are sums "
+  "over whole buckets; the active-keyset refresh writes the mint entry back. Right level: 'value is never lost' over histories needs the "
+  "arithmetic and the mint's view, which are runtime quantities; the bucket discipline is a necessary condition visible in code shape. "
+  "Wallet crash points between two bucket writes are not decided.",
+  TRUST, "DESIGN.md §3 C17")
+CLAIMED["C18"] = ("edge-cut must-pass-through + provenance of the selection/fee expressions + loop-structure rule of the output matching",
+  "Decides that the offline branch returns stored proofs only on the accept edge of sum(selected) == amount + fees(selected) with fees counted "
+  "only when requested and exactly the returned proofs removed; that the swap branch matches send outputs to unblinded proofs by equal amount "
+  "and removes each matched proof from the candidates before the next match (pairwise distinct results); that the recipient fee budget uses "
+  "the synchronised active keyset and the output count; and the wallet fee formulas (one ceil over summed per-proof ppk). Right level: the "
+  "numeric exactness of selection under every fee/amount combination is arithmetic over runtime multisets and is not decided; these are "
+  "necessary structural conditions of it.",
+  TRUST, "DESIGN.md §3 C18")
